@@ -10,7 +10,7 @@ Requests (same file as for harness/c09_patterns.cpp; the hex fields are for the 
   pat <hex pattern> <alt> ('|' <alt>)*
       alt  = ("abs" | "rel") <step>*          step = <sep>:<axis>:<test>:<preds>
       sep  = c | d      axis = c | a | C (child::) | A (attribute::)      test = n.<name> | q.<prefix>.<uri>.<local> | w.<prefix>.<uri> | any | text | comment | pi | pl.<name> | node
-      preds = "-" | comma separated:  i<k> | last | pe<k> | pnl | le<k> | lg<k> | pll | lm1 | a.<x> | c.<x> | na.<x>
+      preds = "-" | comma separated:  i<k> | last | pe<k> | pnl | le<k> | lg<k> | pll | lm1 | sl.<a>.<b> | dv.<a>.<b> | ce.<a>.<b> | ng.<k> | cc.<x> | cs.<x> | sa.<x> | nu.<x> | a.<x> | c.<x> | na.<x>
   fpat <hex pattern> <hex4 units of the id()/key() call text> <node-set "3,7"|"-"> <step>*   (id()/key()-leading pattern)
       reply  "pat <rendered pattern> codes=<alt;alt> m=<score per node> s=<0/1 per node>"
         codes: compilePathW (the compiler's branches);  m: getMatchScore (model of XPath::getMatchScore);  s: Spec.matchesPattern
@@ -67,6 +67,14 @@ def parsePred (s : String) : Option Pred :=
   else if s = "pll" then some .posLtLast
   else if s = "lm1" then some .lastMinus1
   else match s.splitOn "." with
+    | ["cc", x] => some (.countChild x)
+    | ["cs", x] => some (.countSib x)
+    | ["sa", x] => some (.strlenAttr x)
+    | ["nu", x] => some (.numberAttr x)
+    | ["sl", a, b] => (a.toNat?.bind fun a => b.toNat?.map fun b => Pred.sumLit a b)
+    | ["dv", a, b] => (a.toNat?.bind fun a => b.toNat?.map fun b => Pred.divLit a b)
+    | ["ce", a, b] => (a.toNat?.bind fun a => b.toNat?.map fun b => Pred.ceilDiv a b)
+    | ["ng", k] => k.toNat?.map Pred.negLit
     | ["a", x] => some (.attr x)
     | ["c", x] => some (.child x)
     | ["na", x] => some (.notAttr x)
